@@ -751,6 +751,8 @@ func (engine *Engine) ServeHTTP(c context.Context, ctx *app.RequestContext) {
 	// align with https://datatracker.ietf.org/doc/html/rfc2616#section-5.2
 	if len(ctx.Request.Host()) == 0 && ctx.Request.Header.IsHTTP11() && bytesconv.B2s(ctx.Request.Method()) != consts.MethodConnect {
 		ctx.SetHandlers(engine.Handlers)
+		// the request is malformed: do not trust its framing for what follows on the connection
+		ctx.SetConnectionClose()
 		serveError(c, ctx, consts.StatusBadRequest, requiredHostBody)
 		return
 	}
@@ -769,6 +771,7 @@ func (engine *Engine) ServeHTTP(c context.Context, ctx *app.RequestContext) {
 	// Follow RFC7230#section-5.3
 	if rPath == "" || rPath[0] != '/' {
 		ctx.SetHandlers(engine.Handlers)
+		ctx.SetConnectionClose()
 		serveError(c, ctx, consts.StatusBadRequest, default400Body)
 		return
 	}
